@@ -220,6 +220,12 @@ class Agg:
         self.known = []
         self.harness_errors = []
         self.digest = hashlib.sha256()
+        self.run_digests = {}
+
+    def dump_digests(self, path):
+        if path:
+            with open(path, "w") as f:
+                json.dump(self.run_digests, f, sort_keys=True)
 
     def add(self, r):
         if "harness_error" in r:
@@ -246,6 +252,7 @@ class Agg:
         if r.get("sample") is not None and len(self.samples) < 3:
             self.samples.append(r["sample"])
         self.digest.update(str(r.get("digest", "")).encode())
+        self.run_digests[str(r.get("i"))] = str(r.get("digest", ""))
 
 
 def write_evidence(prop, tier, seed, level, agg, wall_s, rule, real, stubbed, assumptions, extra=None,
